@@ -63,6 +63,9 @@ def _names_of(pred, TRr, notes):
 
 
 def run(db, chk) -> None:
+    from ..specs.discipline import check_stateless
+    check_stateless(db, chk, "C15.R-stateless", ['hta.analyzers.cuda_kernel_analysis'])      # the result is a function of the arguments: no state kept between calls, caller's Trace untouched
+    chk.floor("C15.R-stateless", 4)
     m = db.mod(CK)
     rule = "C15.R1-launch-stats"
     ref = f"{CK}:CudaKernelAnalysis.cuda_kernel_launch_stats"
